@@ -206,6 +206,8 @@ def binop(I, st, op, l, r, node):
         prov = ("sub", A, B)
     elif isinstance(op, (ast.Add, ast.Sub)) and A is not None and B is None:
         prov = ("shift", r if isinstance(op, ast.Add) else s_sub(0, r), A)
+    if isinstance(op, ast.Pow) and A is not None and B is None and is_conc(r) and float(r) == 2.0:
+        prov = ("sq", A)
     kind = "real" if isinstance(op, ast.Div) else None
     if isinstance(op, ast.Pow):
         kind = "real" if (A is not None and A.sort == "real") or is_real_like(r) or isinstance(r, float) else None
@@ -1434,3 +1436,88 @@ def np_float64(I, st, args, kw, node):
 @ext("numpy.newaxis")
 def np_newaxis(I, st, args, kw, node):
     raise Unsupported("call np.newaxis")
+
+
+# ---------------------------------------------------------------------------- boolean-mask selection (T-ARR)
+def mask_selection(I, st, X):
+    """Selection (m, sel) of a boolean mask X of length n: sel enumerates the True positions in
+    increasing order.  L-MASK axioms (true facts about numpy boolean indexing):
+      0<=m<=n; sel increasing into [0,n) hitting exactly the True positions; all-True => identity."""
+    key = ("sel", X.uid)
+    if key in st.ghost:
+        return st.ghost[key]
+    n = to_z3(X.shape[0], "int")
+    # a mask that is provably pointwise equal to an earlier one denotes the same selection
+    for (Y, val) in st.ghost.get("masks", []):
+        qi = z3.Int(fresh_name("qe"))
+        chk = z3.Solver()
+        chk.set("timeout", 2000)
+        chk.add(*st.pc)
+        chk.add(z3.Or(n != to_z3(Y.shape[0], "int"),
+                      z3.And(qi >= 0, qi < n, to_z3(X.at(qi)) != to_z3(Y.at(qi)))))
+        if chk.check() == z3.unsat:
+            st.ghost[key] = val
+            return val
+    m = fresh_scalar("int", "m")
+    sel = z3.Function(fresh_name("sel"), z3.IntSort(), z3.IntSort())
+    inv = z3.Function(fresh_name("selinv"), z3.IntSort(), z3.IntSort())
+    k, k2, i = z3.Int(fresh_name("k")), z3.Int(fresh_name("k2")), z3.Int(fresh_name("i"))
+    st.assume(z3.And(m >= 0, m <= n))
+    st.assume(z3.ForAll([k], z3.Implies(z3.And(k >= 0, k < m),
+                                        z3.And(sel(k) >= 0, sel(k) < n, to_z3(X.at(sel(k))), inv(sel(k)) == k)),
+                        patterns=[sel(k)]))
+    st.assume(z3.ForAll([k, k2], z3.Implies(z3.And(k >= 0, k < k2, k2 < m), sel(k) < sel(k2)),
+                        patterns=[z3.MultiPattern(sel(k), sel(k2))]))
+    st.assume(z3.ForAll([i], z3.Implies(z3.And(i >= 0, i < n, to_z3(X.at(i))),
+                                        z3.And(inv(i) >= 0, inv(i) < m, sel(inv(i)) == i)), patterns=[inv(i)]))
+    allt = z3.ForAll([i], z3.Implies(z3.And(i >= 0, i < n), to_z3(X.at(i))))
+    st.assume(z3.Implies(allt, z3.And(m == n, z3.ForAll([k], z3.Implies(z3.And(k >= 0, k < n), sel(k) == k),
+                                                        patterns=[sel(k)]))))
+    st.ghost[key] = (m, sel, inv)
+    st.ghost["masks"] = st.ghost.get("masks", []) + [(X, st.ghost[key])]
+    return st.ghost[key]
+
+
+@ext("__maskselect__", "a[mask]: rows at the True positions of mask, in order (L-MASK axioms)")
+def maskselect(I, st, A, X, node):
+    I.oblige(f"mask-length@{getattr(node, 'lineno', '?')}", st, to_z3(X.shape[0], "int") == to_z3(A.shape[0], "int"), node)
+    n = to_z3(X.shape[0], "int")
+    qi = z3.Int(fresh_name("qa"))
+    chk = z3.Solver()
+    chk.set("timeout", 3000)
+    chk.add(*st.pc)
+    chk.add(qi >= 0, qi < n, z3.Not(to_z3(X.at(qi))))
+    if chk.check() == z3.unsat:
+        # the mask is provably all-True here: the selection is the whole array (L-MASK-all applied)
+        st.ghost[("sel", X.uid)] = (n, (lambda k: k), (lambda k: k))
+        return st.new_arr(Arr(A.shape, A.fn, A.sort, prov=("copy", A)))
+    m, sel, inv = mask_selection(I, st, X)
+    return st.new_arr(Arr((m,) + tuple(A.shape[1:]), lambda k, *r: A.at(sel(to_z3(k, "int")), *r), A.sort,
+                          prov=("select", A, X, sel, m)))
+
+
+@ext("numpy.linspace", "np.linspace(a, b, n)[i] = a + i*(b-a)/(n-1) (n>=2), [a] for n=1")
+def np_linspace(I, st, args, kw, node):
+    a, b, n = args[0], args[1], args[2]
+    nz = to_z3(n, "int")
+
+    def fn(i):
+        iz = to_z3(i, "int")
+        return z3.If(z3.Or(nz == 1, iz == 0), to_z3(a, "real"),
+                     to_z3(a, "real") + z3.ToReal(iz) * (to_z3(b, "real") - to_z3(a, "real")) / z3.ToReal(nz - 1))
+    return st.new_arr(Arr((n,), fn, "real"))
+
+
+@ext("numpy.percentile", "np.percentile(w, p): some value in [min w, max w]; equals min w for p = 0 (requires len(w) >= 1)")
+def np_percentile(I, st, args, kw, node):
+    w, p = st.arr(args[0]), to_z3(args[1], "real")
+    n = to_z3(w.shape[0], "int")
+    I.oblige(f"percentile-nonempty@{node.lineno}", st, n >= 1, node)
+    t = fresh_scalar("real", "pct")
+    i = z3.Int(fresh_name("i"))
+    j = fresh_scalar("int", "jmin")
+    # t >= min and t <= max ; p == 0 -> t is the minimum
+    st.assume(z3.And(j >= 0, j < n, z3.ForAll([i], z3.Implies(z3.And(i >= 0, i < n), w.at(j) <= w.at(i)))))
+    st.assume(t >= w.at(j))
+    st.assume(z3.Implies(p == 0, t == w.at(j)))
+    return t
